@@ -606,7 +606,7 @@ int main()
     try
     {
       if (t.empty()) return "bad-op";
-      if (t[0] == "ring") return ringStep(t);
+      if (t[0] == "ring" || t[0] == "spsc") return ringStep(t);   // `spsc …`: same real ring; the model side answers from Model/RingSpsc.lean
       if (t[0] == "bq") return bqStep(t);
       return "bad-op";
     }
